@@ -122,11 +122,12 @@ def driver_batch(lines: list[str], timeout=600) -> list[str]:
     """Send the lines to the compiled Lean driver, one answer per line."""
     if not lines:
         return []
-    if not DRIVER_EXE.exists():
-        raise DriverError(f"driver executable missing: {DRIVER_EXE}")
+    exe = globals()["DRIVER_EXE"]
+    if not exe.exists():
+        raise DriverError(f"driver executable missing: {exe}")
     data = "\n".join(lines) + "\n"
     p = subprocess.run(
-        [str(DRIVER_EXE)], input=data.encode(), capture_output=True, timeout=timeout
+        [str(exe)], input=data.encode(), capture_output=True, timeout=timeout
     )
     if p.returncode != 0:
         raise DriverError(f"driver exited {p.returncode}: {p.stderr.decode()[:2000]}")
